@@ -107,6 +107,20 @@ claimed.update({
    note=TRUST,
    technique=AI + " of activation graphs and the real walk against analytic derivatives (sign-case split at 0)", ref="4/C15"),
 })
+STATELESS = " Premise re-run in this check: statelessness of operations (S3 field-write ownership, S8 no mutable package state%s), so that per-call verdicts extend to call sequences."
+PREMOPS = " Premise re-run in this check: the Tensor methods this package invokes (resolved from its interface-call sites) are re-checked in labelled-element mode, incl. sizes straddling every block/chunk constant harvested from the implementation."
+for k in ('C01', 'C02', 'C07'):
+    claimed[k]['text'] += STATELESS % ""
+for k in ('C11', 'C13', 'C15', 'C16'):
+    claimed[k]['text'] += STATELESS % ", S13 no tensor parked in component state"
+for k in ('C12', 'C14', 'C16', 'C17', 'C19'):
+    claimed[k]['text'] += PREMOPS
+claimed['C01']['text'] += " The C02 local-rule obligations are re-run as a premise."
+claimed['C11']['text'] += " The C13/C15 gradient obligations are re-run as premises; Softmax's inherited D2 manifestation is a second known finding."
+claimed['C15']['text'] += " The gradient is compared at the leaf AND at the intermediate input h; an extreme-range probe (|x| <= 700) requires a NaN-free gradient interval."
+claimed['C14']['text'] += " The caller's config struct is changed after construction: Forward must keep the construction-time values."
+claimed['C18']['text'] += " S13: Init does not park the tensor it returns (each call returns a fresh object)."
+claimed['C10']['text'] += " S13 (no tensor parked in component state)."
 reasons_na = {
  'C11': "compositional over C01, C02, C07, C08, C10, C16, C17 (each claimed separately); the end-to-end trajectory clause is not yet decided by its own check - build in progress",
  'C13': "compositional over C12, C01, C02 (each claimed separately); an end-to-end check of the loss gradients through the real BackPropagate is being built",
